@@ -43,8 +43,8 @@ CHECKS = {
  "C10": dict(tech="runtime monitoring: every offered list/section conversion at every line over the real LSP loop, conservation-in-order oracle + inverse-action round trips",
    text="Exploration: block word-runs, links and nested blocks conserved in order, other notes untouched, change-list-type twice == original bytes, section-to-list then list-to-sections == original bytes for sections not adjacent to a list.",
    note="the round trip for a section with a preceding sibling section is an open finding (exact signature)", ref="§3 C10"),
- "C11": dict(tech="runtime monitoring: hook-driven scheduler (H1 gates park request workers at started / computed / exited) enumerating interleavings exhaustively for k<=2 (3 thorough) + hook-free floods; last-writer-wins register oracle at quiescence",
-   text="Exhaustive over the hook-distinguishable interleavings for k in-flight requests (k<=2 quick: 148 schedules, k<=3 thorough) x {didChange, didSave} x {same, other note} x release orders; plus floods of unsynchronised mixed traffic judged on final state; every schedule also issues a request right after the notification and checks it sees the new text.",
+ "C11": dict(tech="runtime monitoring: hook-driven scheduler (H1 gates park request workers at started / acquired / computed / exited) enumerating interleavings exhaustively for k<=2 (3 thorough) + hook-free floods; last-writer-wins register oracle at quiescence",
+   text="Exhaustive over the hook-distinguishable interleavings for k in-flight requests (k<=2 quick: 148 schedules, k<=3 thorough) x every request method x {didChange, didSave} x {same, other note} x release orders; a worker parked inside its computation (acquired) may delay the edit but not lose it (bounded-progress verdict after release); plus floods of unsynchronised mixed traffic judged on final state; every schedule also issues a request right after the notification and checks it sees the new text.",
    note="interleavings finer than the hook points are only sampled by the OS scheduler in the flood variant", ref="§3 C11"),
  "C12": dict(tech="runtime monitoring: exactly-once response monitor keyed on hook event Exited(id) + liveness probe against an independent model after every adversarial request",
    text="Exploration: random sessions over every method the router handles x hostile parameter classes; outcome decided when the worker exits (never by timeout); liveness probe after each request; loop must end Ok on shutdown/exit.",
